@@ -58,6 +58,9 @@ def quick_matrix():
         inst("fixedu", 3, "TC4", st="uint8_t", L=3),
         inst("fixed", 4, "TC12", st="uint16_t", L=4, opts=["--few-ranges"]),
         inst("small", 2, "TC300", K=2, L=2, opts=["--few-ranges", "--no-ctors"]),  # 300-byte elements (scratch buffers, byte counts)
+        # non-relocatable elements with an allocator that OFFERS reallocate (a raw byte move): it must never be used for them
+        inst("vector", 0, "NTR", alloc="ledgerrealloc", L=3, opts=["--few-ranges"]),
+        inst("small", 2, "PTN", alloc="ledgerrealloc", L=3, opts=["--few-ranges"]),
         # FixedCapacityVector<T,1> and <T,0> are separate specialisations (one slot and no array; no storage at all)
         inst("fixed", 1, "NTR", st="uint8_t", L=1, K=2),
         inst("fixed", 0, "TR", st="uint8_t", L=0),
@@ -245,8 +248,22 @@ def explore(ctx, matrix, want_tags, engine="E1", any_fail_counts=False, eng=None
             exhaustive = False
             insts.append({"name": name(i), "K": i["K"], "L": i["L"], "crashed": True})
             continue
-        if res.get("nondeterminism"):
-            raise RuntimeError("explorer reports nondeterminism: " + res["nondeterminism"])
+        nd = res.get("nondeterminism")
+        if nd and (nd.startswith("prefix replay diverged") or nd.startswith("canon-on-replay failed")) and " via " in nd:
+            # Two executions of ONE history from fresh objects observed different states.  Every input of an execution is
+            # owned by the harness (values, allocator, faults; no clock, no randomness), so the difference comes from the
+            # code under test reading memory it did not write (uninitialised or stale).  That is a divergence from
+            # std::vector / std::set under every property, and it is reported as one (it never occurs on a correct tree;
+            # the harness's own self-check failures - unsound abstraction, fault that did not fire - stay harness errors).
+            hist = nd.split(" via ", 1)[1].split(" got ")[0].strip()
+            ctx.violation("%s|%s|%s|%s|nondeterministic" % (engine, eng.kind(i), eng.cat(i), opkind(hist.split(" ")[-1]) if hist else "?"),
+                          {"engine": engine, "instantiation": i, "history": hist, "observed": nd, "cmd": replay_cmd(info["bin"], i, hist) + "   (run it twice and compare)"},
+                          "the same history observed from fresh objects gave two different states: " + nd[:300])
+            exhaustive = False
+            insts.append({"name": name(i), "K": i["K"], "L": i["L"], "nondeterministic": True})
+            continue
+        if nd:
+            raise RuntimeError("explorer reports nondeterminism: " + nd)
         tot["states"] += res["states"]
         tot["transitions"] += res["transitions"]
         tot["outcomes"] += res["distinct_outcomes"]
